@@ -59,7 +59,7 @@ static void c03_run(void) {
 	g.inactive_pct = 20;
 	g.opmask |= (1u << OP_APPLY) | (1u << OP_BARRIER_AAW);
 	g.min_clients = 2; g.max_clients = 4; g.max_ops = 8;
-	g.retarget = 1;
+	g.retarget = 3;   // half of the runs (the value is the chance in sixths)
 	qprog_run(&g);
 }
 const prop_def prop_C03 = { "C03", NULL, c03_run, qprog_counter_names,
@@ -88,7 +88,7 @@ static void c05_run(void) {
 	if (g_chance(3, 10)) { prims_run_for_c05(); return; }
 	qgen g; qgen_defaults(&g);
 	g.oracles = O_SYNCRET | O_SERIAL | O_HIER;   // hand-offs carry data only if the items are serialised in the first place
-	g.retarget = 1;
+	g.retarget = 2;
 	g.opmask |= (1u << OP_BARRIER_AAW) | (1u << OP_APPLY);
 	g.qkindmask |= 1u << QK_WORKLOOP;
 	g.max_queues = 5; g.max_qdepth = 3; g.nest_pct = 30;
